@@ -82,7 +82,9 @@ func LoadRules(rules []*Rule) (bool, error) {
 		logging.Error(err, "Fail to load rules in system.LoadRules()", "rules", rules)
 		return false, err
 	}
-	currentRules = rules
+	// keep a copy of the list: the caller may go on using its slice (replace an element and load it
+	// again), and a slice compared with itself always looks unchanged
+	currentRules = append([]*Rule(nil), rules...)
 	return true, nil
 }
 
